@@ -611,6 +611,140 @@ def gen_twice_cases(ctx, quick):
     return cases
 
 
+# ------------------------------------------------------------------------------------------
+# aliasing: the receiver itself (or something that holds / comes from it) as an argument of its own method
+
+ALIAS_RECV = [
+    ("map", "{1: 2, \"k\": [3]}"), ("map-self", "{1: 2}; r.insert(3, r)"), ("vec", "[1, 2, 3]"), ("vec-self", "[1]; r.push(r)"),
+    ("vec-tuple", "[(1, 2), 3]"), ("vec-nested", "[[1], {2: 3}]"), ("inst", "PC.new(); r.f = r; r.g = [r]"),
+    ("fiber", "nil; r = Fiber.new(|a| { var q = Fiber.yield(r); return q; })"), ("tuple-vec", "nil; var inner = [1]; r = (inner, 2); inner.push(r)"),
+    ("iter", "nil; var under = [1, 2, 3]; r = under.iter(); under.push(r)"),
+]
+ALIAS_ARGS = ["r", "[r]", "(r,)", "(1, [r])", "{1: r}", "[[r]]", "(1, (2, [r, r]))", "r[0]", "r.get(1)", "r.iter()", "r.keys().iter()", "r.len", "|| r",
+              "[r].iter()", "Fiber.new(|| r)", "(r, r)"]
+ALIAS_USES = ["r.insert(A, 1)", "r.insert(1, A)", "r.insert(A, A)", "r.get(A)", "r.has_key(A)", "r.remove(A)", "var lit = {(A): r}", "var lit2 = {1: A, (A): 2}",
+              "r.push(A)", "r[A]", "r[0] = A", "r[A] = 1", "r[1] = A", "print(A)", "print(\"<${A}>\")", "String.from(A)", "r.call(A)", "r.next()", "r.f = A",
+              "r.derives(A)", "(A).derives(r)", "for q in A { print(q); }", "r.iter().map(|q| (A)).collect()", "throw A", "Error.new(A).context", "type(A)",
+              "r.pop()", "print(r == r)", "print(r == A)", "r.filter(|q| r.pop()).collect()", "r.reduce(|a, q| r, A)", "r.keys().push(A)", "r.items()[0][1]"]
+
+
+def gen_alias_cases(ctx, quick):
+    """receiver x argument form x use: the use, print(r), the use again, print of the argument, each in its own try/catch.  `==` is only generated
+    between an object and itself or one of its own parts (never two DISTINCT self-containing containers: deep_eq_recursion)."""
+    rng = ctx.rng
+    cases = []
+    for rname, rsetup in ALIAS_RECV:
+        for a in ALIAS_ARGS:
+            uses = ALIAS_USES if not quick else rng.sample(ALIAS_USES, 14) + ["r.insert(A, 1)", "r.push(A)", "print(A)"]
+            for u in uses:
+                if "==" in u and a not in ("r", "r[0]", "r.get(1)"):
+                    continue
+                src = ["var r = %s;" % rsetup]
+                k = 0
+                for stmt in ("var arg = nil; arg = %s" % a, u.replace("A", "arg"), "print(r)", u.replace("A", a), "print(arg)", u.replace("A", "arg"), "print(r)"):
+                    k += 1
+                    body = stmt if stmt.startswith("for ") else stmt + ";"
+                    src.append('try { %s print("ok%d"); } catch e%d { print("err%d"); }' % (body, k, k, k))
+                cases.append(("\n".join(src).replace("var arg = nil; arg =", "arg ="), None))
+                cases[-1] = ("var arg = nil;\n" + cases[-1][0], None)
+    return cases
+
+
+# ------------------------------------------------------------------------------------------
+# several runs on ONE Vm: a snippet that fails uncaught in some state, then snippets that touch everything that survived in the globals
+
+REPL_MODS = {"bad": "var q = [1, 2]; fn g() { return q; } var esc2 = || q; throw \"boom in module\";", "good": "var z = 1; fn h() { return z; }"}
+REPL_FAIL = ['throw "boom";', "[1][5];", "nil.nope();", "var zz = 1 + nil;", "rec(0);"]
+REPL_DECL = "var esc = nil; var esc3 = nil; var keep = nil; var it = nil; var mi = nil; var v = [1, 2, 3, 4]; var m = {1: [2]}; fn rec(n) { return rec(n + 1) + 1; }\n"
+REPL_SETUPS = [
+    ("nested-calls", "fn f3() { var loc = [1, 2]; esc = || loc; FAIL } fn f2() { var l2 = [3]; esc3 = || l2; return f3(); } fn f1() { return f2(); } f1();"),
+    ("in-fiber", "var fib = Fiber.new(|| { var a = [1, 2]; esc = || a; Fiber.yield(1); FAIL }); print(fib.call()); fib.call();"),
+    ("in-new-fiber", "var fib = Fiber.new(|x| { var a = [x]; esc = || a; FAIL }); fib.call(7);"),
+    ("fiber-in-fiber", "var inner = Fiber.new(|| { FAIL }); var outer = Fiber.new(|| { var a = [1, 2]; esc = || a; inner.call(); print(a); }); outer.call();"),
+    ("fiber-in-fiber-in-fiber", "var inner = Fiber.new(|| { var c = [0]; esc3 = || c; FAIL }); var outer = Fiber.new(|| { var a = [1, 2]; esc = || a; inner.call(); print(a); }); "
+                                "var outer2 = Fiber.new(|| { var b = [3]; keep = || b; outer.call(); print(b); return 9; }); outer2.call();"),
+    ("fiber-resumed-chain", "var inner = Fiber.new(|| { Fiber.yield(1); FAIL }); var outer = Fiber.new(|| { var a = [1]; esc = || a; inner.call(); Fiber.yield(2); inner.call(); print(a); }); "
+                            "print(outer.call()); outer.call();"),
+    ("map-callback", "it = v.iter(); mi = it.map(|x| { if x == 2 { var loc = [x]; esc = || loc; FAIL } return x; }); print(mi.collect());"),
+    ("filter-callback", "it = v.iter(); mi = it.filter(|x| { if x == 3 { FAIL } return true; }); for q in mi { print(q); }"),
+    ("reduce-callback", "it = v.iter(); print(it.reduce(|a, x| { if x == 2 { esc = || a; FAIL } return a + x; }, 0));"),
+    ("constructor", "class K { #[constructor] fn new(self, x) { self.x = [x]; keep = self; FAIL } fn get(self) { return self.x; } } var k = K.new(1);"),
+    ("import", 'import "bad" as bad;'),
+    ("import-in-fiber", 'var fib = Fiber.new(|| { import "bad" as bad; return 1; }); fib.call();'),
+    ("try-finally", 'fn tf() { var loc = [1]; try { FAIL } finally { esc = || loc; print("fin"); } } tf();'),
+    ("try-finally-in-fiber", 'var fib = Fiber.new(|| { var loc = [1]; try { Fiber.yield(1); FAIL } finally { esc = || loc; print("fin"); } }); fib.call(); fib.call();'),
+    ("catch-rethrow", "fn cr() { var loc = [1]; try { FAIL } catch e { esc = || [loc, e]; throw e; } } cr();"),
+    ("iterating", "it = v.iter(); for x in it { if x == 2 { var loc = [x]; esc = || loc; FAIL } }"),
+    ("iterating-for-vec", "for x in v { v.push(x); if x == 2 { FAIL } }"),
+    ("iterating-in-fiber", "var fib = Fiber.new(|| { it = v.iter(); for x in it { Fiber.yield(x); if x == 2 { FAIL } } }); fib.call(); fib.call(); fib.call();"),
+    ("method-call", "#[constructor(new)] class M2 { fn boom(self) { var loc = [self]; esc = || loc; FAIL } } keep = M2.new(); keep.boom();"),
+    ("bound-method", "#[constructor(new)] class M3 { fn boom(self, a) { esc = || a; FAIL } } keep = M3.new().boom; keep([1]);"),
+    ("caller-try-around-fiber", "var fib = Fiber.new(|| { var a = [1]; esc = || a; FAIL }); try { fib.call(); } catch e { print(\"never\"); }"),
+    ("class-body", "fn late() { FAIL } #[constructor(new), derive(undefined_base)] class Q { fn a(self) { return 1; } }"),
+    ("interpolation", 'fn si() { var loc = [1]; esc = || loc; FAIL } print("a${si()}b");'),
+    ("args-on-stack", "fn si(a) { esc = || a; FAIL } print([1, 2, [3, si([4])], {5: si([6])}]);"),
+]
+REPL_TOUCH = [
+    # fibers again (with and without argument), twice
+    "try { print(fib.call()); } catch e { print(e.context); } try { print(fib.call(1)); } catch e { print(e.context); } try { print(fib.has_finished()); } catch e { print(e.context); }",
+    "try { print(outer.call()); } catch e { print(e.context); } try { print(inner.call()); } catch e { print(e.context); } try { print(outer2.call()); } catch e { print(e.context); } "
+    "try { print(outer.call(2)); } catch e { print(e.context); } try { print(outer.has_finished()); print(inner.has_finished()); } catch e { print(e.context); }",
+    # escaped closures
+    "try { print(esc()); } catch e { print(e.context); } try { print(esc3()); } catch e { print(e.context); } try { print(keep()); } catch e { print(e.context); }",
+    # iterators again
+    "try { print(it.next()); for q in it { print(q); } print(it.next()); } catch e { print(e.context); } try { print(mi.next()); print(mi.collect()); } catch e { print(e.context); }",
+    # everything printed; garbage pressure; printed again
+    "try { print(v); print(m); print(keep); print(it); print(esc); } catch e { print(e.context); } var gi = 0; while gi < 150 { var gt = [gi, [gi]]; gi = gi + 1; } "
+    "try { print(esc()); print(keep); print(v.len()); } catch e { print(e.context); }",
+    # survivors of a failed import / constructor / method
+    'try { print(bad); } catch e { print(e.context); } try { import "bad" as bad2; print(bad2); } catch e { print(e.context); } try { import "good" as good; print(good.h()); } catch e { print(e.context); }',
+    "try { print(keep.get()); print(keep.x); } catch e { print(e.context); } try { print(k); } catch e { print(e.context); } try { keep.boom(); } catch e { print(e.context); }",
+    # new fibers driving the survivors
+    "try { var nf = Fiber.new(|| { print(outer.call()); return esc(); }); print(nf.call()); } catch e { print(e.context); } "
+    "try { var nf2 = Fiber.new(|| { print(fib.call()); return 1; }); print(nf2.call()); } catch e { print(e.context); }",
+    # a fresh, healthy program
+    'fn ok1(a) { return a + 1; } print(ok1(1)); try { throw "t"; } catch e { print(e); } finally { print("f"); } for q in [1, 2] { print(q); }',
+]
+
+
+def gen_repl_cases(ctx, quick):
+    """[list of snippets]: declarations, the failing snippet, 3-5 touching snippets (one of them may be the failing snippet again)"""
+    rng = ctx.rng
+    cases = []
+    for name, setup in REPL_SETUPS:
+        fails = REPL_FAIL if ("FAIL" in setup) else [""]
+        for f in fails:
+            for rep in range(1 if quick else 4):
+                failing = setup.replace("FAIL", f)
+                touches = list(REPL_TOUCH)
+                rng.shuffle(touches)
+                touches = touches[:rng.randint(3, 5)]
+                if rng.random() < 0.4:
+                    touches.insert(rng.randint(0, len(touches)), failing)
+                # the two fiber touches always come along (in random position)
+                for must in REPL_TOUCH[:2]:
+                    if must not in touches:
+                        touches.insert(rng.randint(0, len(touches)), must)
+                cases.append((name, [REPL_DECL, failing] + touches))
+    return cases
+
+
+def run_repl_cases(ctx, binary, cases):
+    mods = ",".join("%s=%s" % (hx(k), hx(v)) for k, v in REPL_MODS.items())
+    lines = ["c02repl %s %s" % (mods, " ".join(hx(sn) for sn in snips)) for _, snips in cases]
+    recs = run_confirmed(ctx, binary, lines, "debug multi-snippet")
+    fails = []
+    nsnip = 0
+    for (name, snips), r in zip(cases, recs):
+        nsnip += len(snips)
+        bad = bad_record(r)
+        if bad is None and not r.tagged("SNIP"):
+            bad = "harness command c02repl unavailable"
+        if bad:
+            fails.append((name, snips, bad))
+    return nsnip, fails
+
+
 def run_iter_cases(ctx, binary, cases, what):
     """returns (#agree, #differ, failures[(source, description)], first differences)"""
     group = 24
@@ -1238,6 +1372,12 @@ def run(ctx):
     binary = ctx.harness("debug")
     if ctx.replay_only:
         rp = ctx.replay_only
+        if rp.get("snippets"):
+            _n, fails = run_repl_cases(ctx, binary, [("replay", rp["snippets"])])
+            for name, snips, bad in fails:
+                ctx.violation(rp.get("what", "replay"), input=rp.get("input"), snippets=snips, expected="every run: Ok or Err(Error)", actual=bad)
+            ctx.cov.update({"evaluations": 1, "distinct_nontrivial": 1, "rule": "replay of one recorded snippet sequence", "samples": [rp["snippets"][1][:300]]})
+            return
         src = rp.get("input", "")
         rec = yvlib.run_harness(binary, [mods_line(src)], quarantine=True)[0]
         bad = bad_record(rec)
@@ -1342,6 +1482,26 @@ def run(ctx):
     hist["twice:ok"] = tw_agree
     hist["twice:fail"] = len(tw_fails)
     log('[C02] same-object cases: %d in %.1fs' % (len(tcases), time.time() - t0))
+    t0 = time.time()
+    # ---- aliasing: the receiver (or a holder / part / iterator of it) as its own argument ----
+    acases = gen_alias_cases(ctx, quick)
+    al_ok, _al_differ, al_fails, _ = run_iter_cases(ctx, binary, acases, "debug aliasing")
+    for s1, bad in al_fails[:3]:
+        ctx.violation("a container passed (directly or inside another value) to its own method / VM operation does not end in a value or a reported error: %s" % bad,
+                      input=s1, expected="Ok or Err(Error)", actual=bad)
+    hist["alias:ok"] = al_ok
+    hist["alias:fail"] = len(al_fails)
+    log('[C02] aliasing cases: %d in %.1fs' % (len(acases), time.time() - t0))
+    t0 = time.time()
+    # ---- several runs on one Vm: an uncaught failure in some state, then everything that survived is used again ----
+    rcases = gen_repl_cases(ctx, quick)
+    repl_snips, repl_fails = run_repl_cases(ctx, binary, rcases)
+    for name, snips, bad in repl_fails[:3]:
+        ctx.violation("after a run that failed uncaught (%s), a later run on the same Vm that touches the surviving globals does not end in Ok or Err(Error): %s" % (name, bad),
+                      input="\n//--- next run on the same Vm ---\n".join(snips), snippets=snips, expected="every run: Ok or Err(Error)", actual=bad)
+    hist["repl:ok"] = len(rcases) - len(repl_fails)
+    hist["repl:fail"] = len(repl_fails)
+    log('[C02] multi-snippet cases: %d (%d snippets) in %.1fs' % (len(rcases), repl_snips, time.time() - t0))
     t0 = time.time()
     # ---- (b) ill-typed programs: oracle impl == S ----
     nprog = 400 if quick else 3000
@@ -1452,8 +1612,8 @@ def run(ctx):
     log('[C02] site check: %d functions in %.1fs' % (fns, time.time() - t0))
     ncalls = len(probes) + len(dprobes)
     ctx.cov.update({
-        "operator_probes": len(ops), "iterator_misuse_cases": len(icases), "same_object_cases": len(tcases),
-        "evaluations": ncalls + len(ops) + len(icases) + len(tcases) + len(lts) + len(progs) * len(builds) + len(KNOWN) + (len(probes) if not quick else 0),
+        "operator_probes": len(ops), "iterator_misuse_cases": len(icases), "same_object_cases": len(tcases), "aliasing_cases": len(acases), "multi_snippet_cases": len(rcases), "multi_snippet_snippets": repl_snips,
+        "evaluations": ncalls + len(ops) + len(icases) + len(tcases) + len(acases) + len(rcases) + len(lts) + len(progs) * len(builds) + len(KNOWN) + (len(probes) if not quick else 0),
         "distinct_nontrivial": len(nontrivial),
         "rule": "native calls: distinct (native, fiber context, receiver kind, argument-kind vector) combinations whose outcome is NOT an arity error "
                 "(the call got past check_num_args / the at-most-1 test); kinds as in NativesModel.akind (number class, vec length, tuple hashability, "
